@@ -7,6 +7,7 @@ import (
 	"go/token"
 	"go/types"
 	"os"
+	"path/filepath"
 
 	"golang.org/x/tools/go/ssa"
 )
@@ -105,6 +106,40 @@ func (e *Enc) loopCandidates(f *Frame, li *loopInfo) []*Clause {
 					return le(sLen(v), sLen(i)), ok && ok2
 				})
 			}
+		}
+	}
+	// two-state postconditions of the function ("nothing here replaces X") are
+	// proposed as invariants of each of its loops, relating the loop head to
+	// the function's entry state
+	if sp := e.P.specFor(f.fn); sp != nil {
+		for _, en := range sp.Ensures {
+			if !strings.Contains(en.Text, "old(") || strings.Contains(en.Text, "result") {
+				continue
+			}
+			cl := en
+			fn := f.fn
+			addC("post "+en.Name, func(f *Frame, get func(ssa.Value) (Term, bool), st *State) (Term, bool) {
+				if f.fn != fn || f.entry == nil {
+					return tTrue, false
+				}
+				env := &SpecEnv{f: f, names: map[string]Term{}, types: map[string]types.Type{}, cur: st, old: f.entry}
+				if fn.Pkg != nil {
+					env.pkg = fn.Pkg.Pkg
+				}
+				for _, p := range fn.Params {
+					t, ok := get(p)
+					if !ok {
+						return tTrue, false
+					}
+					env.names[p.Name()] = t
+					env.types[p.Name()] = p.Type()
+				}
+				t, err := env.evalBool(cl.Expr)
+				if err != nil {
+					return tTrue, false
+				}
+				return t, true
+			})
 		}
 	}
 	// heap templates: fields of the pointer parameters keep their entry value / length
@@ -302,6 +337,42 @@ func inferAll(P *Program, U *Universe, fns []*ssa.Function, dir string, seed int
 		}
 	}
 	debug := os.Getenv("GOVC_DEBUG") != ""
+	cache := loadHoudiniCache(P, filepath.Join(filepath.Dir(filepath.Dir(dir)), "houdini-cache"))
+	fromCache := map[*ssa.Function]bool{}
+	{
+		var rest []*ssa.Function
+		for _, fn := range active {
+			ent, ok := cache.Funcs[funcKey(fn)]
+			if !ok {
+				rest = append(rest, fn)
+				continue
+			}
+			s := states[fn]
+			e := newEnc(P, U, fn)
+			e.houdini = true
+			e.keptInv = s.kept
+			e.firstRound = true
+			runEncoding(e, fn, nil)
+			s.kept = map[loopKey][]*Clause{}
+			if e.unsupported == "" {
+				for k, cs := range e.candByLoop {
+					want := map[string]bool{}
+					for _, n := range ent[fmt.Sprintf("%s/%d", funcKey(k.fn), k.header)] {
+						want[n] = true
+					}
+					for _, c := range cs {
+						if want[c.Name] {
+							s.kept[k] = append(s.kept[k], c)
+						}
+					}
+				}
+			}
+			s.first = false
+			s.done = true
+			fromCache[fn] = true
+		}
+		active = rest
+	}
 	for round := 0; round < 8 && len(active) > 0; round++ {
 		var obs []*Oblig
 		owner := map[*Oblig]*ssa.Function{}
@@ -393,7 +464,19 @@ func inferAll(P *Program, U *Universe, fns []*ssa.Function, dir string, seed int
 			continue
 		}
 		out[fn] = s.kept
+		if !fromCache[fn] {
+			ent := map[string][]string{}
+			for k, cs := range s.kept {
+				var names []string
+				for _, c := range cs {
+					names = append(names, c.Name)
+				}
+				ent[fmt.Sprintf("%s/%d", funcKey(k.fn), k.header)] = names
+			}
+			cache.Funcs[funcKey(fn)] = ent
+		}
 	}
+	cache.save()
 	return out
 }
 
